@@ -907,6 +907,20 @@ class Interp:
             return states, [], []
         if k == 'Expr':
             e = s['e']
+            if e.get('k') == 'Assign' and e['op'] == '=' and e['b'].get('k') == 'Cond' and not getattr(self, 'NO_RETURN_SPLIT', False):
+                # `x = c ? a : b;` is `if (c) x = a; else x = b;`
+                out = []
+                for st in states:
+                    for ns, t in self.evalc(e['b']['c'], st):
+                        ns = ns.copy() if ns is st else ns
+                        ns.step(s['l'], 'T' if t else 'F')
+                        e2 = dict(e)
+                        e2['b'] = e['b']['t' if t else 'f']
+                        s2 = dict(s)
+                        s2['e'] = e2
+                        o2, _, _ = self.run(s2, [ns])
+                        out += o2
+                return self.dedup(out), [], []
             if e.get('k') == 'Assign' and e['op'] == '=' and e['a'].get('k') == 'Var' and e['a']['kind'] in ('local', 'param') and self.is_cond(e['b']):
                 return self.assign_split(e['a'], e['b'], states), [], []
             if e.get('k') == 'Assign' and e['op'] == '=' and e['a'].get('k') == 'Var' and e['b'].get('k') == 'Call' \
